@@ -508,13 +508,18 @@ def r7_eval(run: Run, rt, only=None):
     the value exceeds every key, #N/A when it is below every key)"""
     from ..finite import evaluator_for, Evaluator, AV, const_av, Unknown, AbsRaise
 
+    BLANK = AV('blank', sign='zero')
+
     def area(keys):
-        return AV('list', items=tuple(AV('list', items=(const_av(k), AV('str', text='other', val=f'P{i + 1}')))
+        return AV('list', items=tuple(AV('list', items=(k if isinstance(k, AV) else const_av(k), AV('str', text='other', val=f'P{i + 1}')))
                                       for i, k in enumerate(keys)))
     cases = [('exact', [1, 2, 2, 3], 2, 2, 'first of several equal keys'), ('exact', [1, 2, 3], 3, 3, 'equal key in the last row'),
              ('exact', [1, 2, 3], 5, '#N/A', 'no equal key'),
              ('approx', [1, 2, 2, 3], 2, 3, 'last of several equal keys'), ('approx', [1, 2, 4], 3, 2, 'last key below the value'),
-             ('approx', [1, 2, 3], 5, 3, 'value above every key'), ('approx', [2, 3, 4], 1, '#N/A', 'value below every key')]
+             ('approx', [1, 2, 3], 5, 3, 'value above every key'), ('approx', [2, 3, 4], 1, '#N/A', 'value below every key'),
+             # rows that do not take part (blank key, key of another kind) still count as positions of the area
+             ('exact', [BLANK, 1, 2], 2, 3, 'a blank key row in front'), ('exact', [1, 'x', 2], 2, 3, 'a text key row in between'),
+             ('approx', [BLANK, 1, 2, 4], 3, 3, 'a blank key row in front (approximate)')]
     for cp in rt.copies():
         for h in ('_vlookup', '_match'):
             if only is not None and (cp.label, h) not in only:
